@@ -123,6 +123,10 @@ def build_op(spec: dict):
     raise ValueError(f"unknown op {t}")
 
 
+# looked up on the instance by copy.copy / copy.deepcopy / pickle: a driver that copies a user object reads all of it
+COPY_HOOKS = ("__deepcopy__", "__copy__", "__reduce_ex__", "__reduce__", "__getstate__")
+
+
 class BareMove:
     """A user-defined move that implements only the documented protocol and inherits
     from nothing in the package.  Every attribute access from outside is logged."""
@@ -138,7 +142,7 @@ class BareMove:
         object.__setattr__(self, "_inside", 0)
 
     def __getattribute__(self, name):
-        if not name.startswith("_") or name in ("__call__",):
+        if not name.startswith("_") or name in ("__call__",) or name in COPY_HOOKS:
             log = object.__getattribute__(self, "_log")
             if not object.__getattribute__(self, "_inside"):
                 log.append(("get", name))
@@ -217,7 +221,7 @@ class BareCriteria:
         object.__setattr__(self, "_inside", 0)
 
     def __getattribute__(self, name):
-        if not name.startswith("_"):
+        if not name.startswith("_") or name in COPY_HOOKS:
             if not object.__getattribute__(self, "_inside"):
                 object.__getattribute__(self, "_log").append(("get", name))
         return object.__getattribute__(self, name)
@@ -481,7 +485,7 @@ class World:
         cls = driver_class(sc["driver"])
         p = dict(sc.get("params", {}))
         kw = {}
-        if "max_cycles" in p:
+        if "max_cycles" in p and "max_cycles" not in sc.get("omit", ()):
             kw["max_cycles"] = p["max_cycles"]
         kw["seed"] = _seed_value(sc)
         name = sc["driver"]
@@ -513,9 +517,10 @@ class World:
         elif name == "Isobaric":
             mc = cls(self.atoms, temperature=p["temperature"], pressure=p.get("pressure", 0.0), **kw)
         elif name == "Isotension":
-            mc = cls(self.atoms, temperature=p["temperature"], pressure=p.get("pressure", 0.0),
-                     external_stress=np.array(p["external_stress"], dtype=float)
-                     if p.get("external_stress") is not None else None, **kw)
+            if p.get("external_stress") is not None:
+                kw["external_stress"] = np.array(p["external_stress"], dtype=float)
+            # (not configured: the argument is left out altogether, the documented default applies)
+            mc = cls(self.atoms, temperature=p["temperature"], pressure=p.get("pressure", 0.0), **kw)
         elif name == "GrandCanonical":
             ex = build_atoms(sc["exchange"])
             self.template = ex
